@@ -27,6 +27,8 @@ pub(crate) const DAYS: usize = 2;
 
 /// days from CE of table day 0
 static mut BASE: i32 = 0;
+/// the table days as dates (None: not representable / outside the supported range)
+static mut TAB_DATES: [Option<NaiveDate>; DAYS] = [None; DAYS];
 /// per table day: (start minute, end minute, kind code); start >= end means "no range"
 static mut TAB: [(u16, u16, u8); DAYS] = [(0, 0, 0); DAYS];
 
@@ -54,14 +56,20 @@ fn in_supported_range(date: NaiveDate) -> bool {
     date >= DATE_START.date() && date < DATE_END.date()
 }
 
-/// index of `date` in the table
+fn tab_date(i: usize) -> Option<NaiveDate> {
+    unsafe { TAB_DATES[i] }
+}
+
+/// index of `date` in the table (comparisons only: no calendar arithmetic in the models)
 fn tab_index(date: NaiveDate) -> Option<usize> {
-    let i = date.num_days_from_ce() as i64 - base() as i64;
-    if 0 <= i && (i as usize) < DAYS && in_supported_range(date) {
-        Some(i as usize)
-    } else {
-        None
+    let mut i = 0;
+    while i < DAYS {
+        if tab_date(i) == Some(date) {
+            return Some(i);
+        }
+        i += 1;
     }
+    None
 }
 
 /// the range of day `i`, if it has one
@@ -121,34 +129,45 @@ pub(crate) fn hint_model<L: Localize>(_oh: &OpeningHours<L>, date: NaiveDate) ->
     if kani::any() {
         return None;
     }
-    let jump: u8 = kani::any();
-    kani::assume(1 <= jump && jump <= DAYS as u8 + 2);
-    let far: bool = kani::any();
-    // either a short jump of 1..=DAYS+2 days or a jump to the end of the supported range
-    let h = if far { DATE_END.date() } else { date + Duration::days(jump as i64) };
-    kani::assume(h > date && h <= DATE_END.date());
-    // every day strictly in between has the single kind the day `date` ends with
+    // candidates: the next day, any later table day, the day after the table, the end of the supported range
+    let c: u8 = kani::any();
+    let h = if c == 0 {
+        date.succ_opt()
+    } else if (c as usize) <= DAYS {
+        tab_date(c as usize - 1)
+    } else if c as usize == DAYS + 1 {
+        tab_date(DAYS - 1).and_then(|d| d.succ_opt())
+    } else {
+        Some(DATE_END.date())
+    };
+    kani::assume(matches!(h, Some(h) if h > date && h <= DATE_END.date()));
+    let h = h.unwrap();
+    // contract: every day strictly in between has the single kind the day `date` ends with
     let k = last_kind(date);
-    let mut i = 0;
-    while i < DAYS {
-        let di = NaiveDate::from_num_days_from_ce_opt(base() + i as i32).unwrap();
-        if date < di && di < h {
-            kani::assume(uniform(di) == Some(k));
-        }
-        i += 1;
-    }
-    // days outside the table are closed all day
-    let between = (h - date).num_days() - 1;
     let mut table_days_between = 0;
     let mut i = 0;
     while i < DAYS {
-        let di = NaiveDate::from_num_days_from_ce_opt(base() + i as i32).unwrap();
-        if date < di && di < h && in_supported_range(di) {
-            table_days_between += 1;
+        if let Some(di) = tab_date(i) {
+            if date < di && di < h {
+                kani::assume(uniform(di) == Some(k));
+                table_days_between += 1;
+            }
         }
         i += 1;
     }
-    if between > table_days_between {
+    // days outside the table are closed all day: is there such a day strictly between `date` and `h`?
+    let next = date.succ_opt();
+    let gap_outside_table = match next {
+        Some(n) if n < h => {
+            // the days between are exactly table days iff the first one is a table day and they are consecutive up to h
+            let first_is_table = tab_index(n).is_some();
+            let last_before_h = h.pred_opt().map_or(false, |p| tab_index(p).is_some());
+            !(first_is_table && last_before_h && table_days_between >= 1
+                && tab_index(n).map_or(false, |a| tab_index(h.pred_opt().unwrap()).map_or(false, |b| b + 1 - a == table_days_between)))
+        }
+        _ => false,
+    };
+    if gap_outside_table {
         kani::assume(k == RuleKind::Closed);
     }
     Some(h)
@@ -178,6 +197,8 @@ fn setup_table(base_days: i32) {
     unsafe { BASE = base_days };
     let mut i = 0;
     while i < DAYS {
+        let di = NaiveDate::from_num_days_from_ce_opt(base_days + i as i32).filter(|d| in_supported_range(*d));
+        unsafe { TAB_DATES[i] = di };
         let s = nd::u16();
         let e = nd::u16();
         let k = nd::u8();
@@ -206,7 +227,7 @@ fn fixed_base() -> i32 {
     NaiveDate::from_ymd_opt(2024, 2, 27).unwrap().num_days_from_ce()
 }
 
-//@H props=C03,C02,C04 tier=thorough kind=bounded cap=3600 mem=heavy bound="3 consecutive days (2024-02-27..29) of at most 1 range each, all other days closed; callees replaced by contract models" domain="all range bounds and kinds; instant within 2 days of the table"
+//@H unwindset="drop_glue::<\\[std::sync::Arc<str>\\]>=1" props=C03,C02,C04 tier=deep kind=bounded cap=3600 mem=heavy bound="2 consecutive days (2024-02-27..28) of at most 1 range each, all other days closed; callees replaced by contract models" domain="all range bounds and kinds; instant within 2 days of the table"
 #[cfg_attr(kani, kani::proof)]
 #[cfg_attr(kani, kani::unwind(5))]
 #[cfg_attr(kani, kani::stub(<TimeRange as std::clone::Clone>::clone, timerange_clone_model))]
